@@ -91,6 +91,18 @@ def run_operator_case(case, prop, configs, weakly, want, nq=8, cinf_bounds=(5, 5
     bdesc = base_desc(sig, conds)
     mode = 'extended' if weakly else 'strict'
     ref_by_sys = {}
+    from .. import instrument as _ins
+    guard = _ins.StallGuard()
+    guard.install()
+    try:
+        return _run_configs(rng, res, bump, configs, weakly, mode, sig, conds, keys, via, style, parallel, qs, qtt,
+                            setup, csys, base, bdesc, ref_by_sys, extra, fam, prop)
+    finally:
+        guard.uninstall()
+
+
+def _run_configs(rng, res, bump, configs, weakly, mode, sig, conds, keys, via, style, parallel, qs, qtt,
+                 setup, csys, base, bdesc, ref_by_sys, extra, fam, prop):
     for (system, p) in configs:
         cname = impl.cfg_name(system, p)
         if system not in ref_by_sys:
@@ -107,6 +119,15 @@ def run_operator_case(case, prop, configs, weakly, want, nq=8, cinf_bounds=(5, 5
         except BaseException as e:  # noqa
             if isinstance(e, (KeyboardInterrupt,)) or type(e).__name__ == 'SoftTimeout':
                 raise
+            if type(e).__name__ == 'Stall':
+                # logical-step verdict (DESIGN 6.1): a violation where the statement promises an answer
+                # (extended mode: 'return a Boolean and never raise'), otherwise inconclusive
+                if weakly:
+                    res['violations'].append({'sig': '%s:%s:non-termination(enumeration makes no progress)' % (cname, mode),
+                                              'detail': {'base': bdesc, 'steps': str(e)}})
+                else:
+                    res['inconclusive'].append('%s %s: %s' % (cname, mode, e))
+                continue
             # localise: ask one by one
             got = []
             for qi, q in enumerate(qs):
